@@ -2150,3 +2150,162 @@ func ruleQuotedIsString(prog *Program, rep *Report, specs ...feSpec) {
 		}
 	}
 }
+
+// ---------------------------------------------------------------- C-memberstore
+
+// ruleMemberStore: the SEN parser stores an object member in four places (value, token on the slow path,
+// token on the fast path, string), each as a block that finds the pending gen.Key on the build stack, writes
+// obj[string(k)] and pops the key. What such a block leaves in the parser's fields is what the next byte sees
+// (the last key for the `+` string continuation, the mode), so all of these blocks assign the same fields.
+func ruleMemberStore(prog *Program, rep *Report) {
+	rep.Rules = append(rep.Rules, "C-memberstore: every block of a sen.Parser method that stores an object member under a pending key (an assignment to m[string(k)] with k of type gen.Key) assigns the same set of receiver fields as every other such block: the slow-path copy of a helper leaves the parser in the state its fast-path twin leaves it in")
+	pk := prog.Pkg("sen")
+	if pk == nil {
+		rep.Errorf("C-memberstore: package sen not loaded")
+		return
+	}
+	info := pk.TypesInfo
+	type blk struct {
+		pos    token.Pos
+		fn     string
+		fields map[string]bool
+	}
+	var blocks []blk
+	isKeyStore := func(s ast.Stmt) bool {
+		found := false
+		ast.Inspect(s, func(n ast.Node) bool {
+			as, ok := n.(*ast.AssignStmt)
+			if !ok {
+				return true
+			}
+			for _, l := range as.Lhs {
+				ix, ok := ast.Unparen(l).(*ast.IndexExpr)
+				if !ok {
+					continue
+				}
+				call, ok := ast.Unparen(ix.Index).(*ast.CallExpr)
+				if !ok || len(call.Args) != 1 {
+					continue
+				}
+				if _, isLocal := ast.Unparen(call.Args[0]).(*ast.Ident); !isLocal {
+					continue // the `+` continuation stores under a remembered key (a field), it does not pop a pending one
+				}
+				if t := info.TypeOf(call.Args[0]); t != nil {
+					if nt, ok := t.(*types.Named); ok && nt.Obj().Name() == "Key" && nt.Obj().Pkg() != nil && strings.HasSuffix(nt.Obj().Pkg().Path(), "/gen") {
+						found = true
+					}
+				}
+			}
+			return true
+		})
+		return found
+	}
+	for _, f := range pk.Syntax {
+		for _, d := range f.Decls {
+			fd, ok := d.(*ast.FuncDecl)
+			if !ok || fd.Body == nil || fd.Recv == nil || len(fd.Recv.List) != 1 || len(fd.Recv.List[0].Names) != 1 {
+				continue
+			}
+			if strings.TrimPrefix(types.ExprString(fd.Recv.List[0].Type), "*") != "Parser" {
+				continue
+			}
+			recv := info.Defs[fd.Recv.List[0].Names[0]]
+			// innermost blocks that contain a key store at their own level (directly or inside a switch of the block)
+			var visit func(list []ast.Stmt)
+			visit = func(list []ast.Stmt) {
+				direct := false
+				for _, s := range list {
+					switch x := s.(type) {
+					case *ast.AssignStmt:
+						if isKeyStore(x) {
+							direct = true
+						}
+					case *ast.SwitchStmt:
+						if isKeyStore(x) {
+							direct = true
+						}
+					}
+				}
+				if direct {
+					b := blk{pos: list[0].Pos(), fn: enclosingFuncName(f, fd.Pos()), fields: map[string]bool{}}
+					for _, s := range list {
+						ast.Inspect(s, func(n ast.Node) bool {
+							as, ok := n.(*ast.AssignStmt)
+							if !ok {
+								return true
+							}
+							for _, l := range as.Lhs {
+								if sel, ok := ast.Unparen(l).(*ast.SelectorExpr); ok {
+									if id, ok := ast.Unparen(sel.X).(*ast.Ident); ok && info.Uses[id] == recv {
+										b.fields[sel.Sel.Name] = true
+									}
+								}
+							}
+							return true
+						})
+					}
+					blocks = append(blocks, b)
+					return
+				}
+				for _, s := range list {
+					switch x := s.(type) {
+					case *ast.BlockStmt:
+						visit(x.List)
+					case *ast.IfStmt:
+						visit(x.Body.List)
+						switch e := x.Else.(type) {
+						case *ast.BlockStmt:
+							visit(e.List)
+						case *ast.IfStmt:
+							visit([]ast.Stmt{e})
+						}
+					case *ast.ForStmt:
+						visit(x.Body.List)
+					case *ast.RangeStmt:
+						visit(x.Body.List)
+					case *ast.SwitchStmt:
+						for _, c := range x.Body.List {
+							visit(c.(*ast.CaseClause).Body)
+						}
+					case *ast.TypeSwitchStmt:
+						for _, c := range x.Body.List {
+							visit(c.(*ast.CaseClause).Body)
+						}
+					}
+				}
+			}
+			visit(fd.Body.List)
+		}
+	}
+	rep.Eval(len(blocks))
+	if len(blocks) < 3 {
+		rep.Errorf("C-memberstore found %d member-store blocks in sen.Parser (floor 3)", len(blocks))
+		return
+	}
+	sig := func(b blk) string {
+		var fs []string
+		for f := range b.fields {
+			fs = append(fs, f)
+		}
+		sort.Strings(fs)
+		return strings.Join(fs, ",")
+	}
+	cnt := map[string]int{}
+	for _, b := range blocks {
+		cnt[sig(b)]++
+	}
+	major, best := "", 0
+	for s, n := range cnt {
+		if n > best {
+			major, best = s, n
+		}
+	}
+	for _, b := range blocks {
+		key := "sen." + b.fn + ":member-store"
+		if sig(b) == major {
+			rep.Discharge("C-memberstore", key, prog.Pos(b.pos), "assigns "+major)
+			continue
+		}
+		rep.Violate(Finding{Rule: "C-memberstore", Key: key, Pos: prog.Pos(b.pos), Msg: fmt.Sprintf("the member-store block of %s assigns the parser fields {%s}; the other %d such blocks assign {%s}", b.fn, sig(b), best, major)})
+	}
+}
